@@ -40,6 +40,8 @@ func apply(w *world.World, e *Event) bool {
 	case "pod_arrive":
 		w.PodArrive(e.G, e.A, e.B)
 		return true
+	case "pod_replace":
+		return w.PodReplace(e.G, e.S, e.A, e.B)
 	case "pod_schedule":
 		return w.PodSchedule(e.G, e.N)
 	case "pod_finish":
@@ -338,6 +340,13 @@ func genStep(r *rand.Rand, w *world.World, o genOpts, nextID map[string]int, ste
 		return Event{Ev: "tick"}
 	case "pod_arrive":
 		kc, km := size()
+		if len(gs.Pods) > 0 && r.Intn(5) == 0 { // a pod is re-submitted under its old name, for this or another group, with other requests
+			g2 := w.Gorder[r.Intn(len(w.Gorder))]
+			if o.iso {
+				g2 = g // twin runs need changes confined to one group
+			}
+			return Event{Ev: "pod_replace", G: g, S: g2, A: 1 + r.Intn(kc), B: 1 + r.Intn(km)}
+		}
 		if r.Intn(5) == 0 { // one big pod does as well as a burst
 			return Event{Ev: "pod_arrive", G: g, A: kc, B: 1 + r.Intn(km)}
 		}
@@ -713,7 +722,11 @@ func isoTwin(src string, seed int64, init *world.State, evs []interface{}, lines
 			}
 			continue
 		}
-		if e.Ev != "tick" && e.Ev != "restart" && e.Ev != "shuffle" && groupOfEvent(e, init.Gorder) == h {
+		confined := groupOfEvent(e, init.Gorder) == h
+		if e.Ev == "pod_replace" && e.S != h {
+			confined = false // the pod moves to another group: not a change confined to h, keep it in both runs
+		}
+		if e.Ev != "tick" && e.Ev != "restart" && e.Ev != "shuffle" && confined {
 			dropped++
 			continue
 		}
